@@ -73,6 +73,9 @@ def suites(tier: str, seed: int) -> List[Suite]:
     # regenerating INTO THE SAME OUTPUT DIRECTORY after a linked asset got other bytes of the same length (old
     # timestamps): the copy in the output must be the new bytes
     hist.cases = SC.gen_asset_history_cases(seed, 8 if tier == "quick" else 150)
+    # several stand-alone pages in one process (a file embedded for a page whose root contains it must still be refused
+    # for a page with a smaller root; a rewritten file shows its new bytes)
+    hist.cases += SC.gen_alone_history_cases(seed, 8 if tier == "quick" else 100)
     return [site, alone, hist]
 
 
